@@ -378,4 +378,140 @@ theorem tr_getVariable (n : Nat) (g : Env) (m : GV) (xs : List GV) (H : Heap) :
     rw [show n + xs.length + 45 = n + 5 + items.length + 40 by omega, hl]
 
 
+/-! ## `checkForBadPropertyVariables` -/
+
+theorem find_cfb : findFn matchProg ".checkForBadPropertyVariables" = some matchProg_McheckForBadPropertyVariables := by rfl
+
+def cfbBody : List GS :=
+  match matchProg_McheckForBadPropertyVariables.body with
+  | [_, _, GS.range _ _ _ _ body, _] => body
+  | _ => []
+
+theorem cfb_shape : matchProg_McheckForBadPropertyVariables.body =
+    [GS.ifs none (GE.un "!" (GE.field (GE.var "m") "CheckForBadPropertyVariables")) [GS.ret [GE.lit GV.nil]] [],
+     GS.ifs none (GE.bin "<=" (GE.call "len" [GE.var "pattern"]) (GE.lit (GV.int 1))) [GS.ret [GE.lit GV.nil]] [],
+     GS.range "" "k" "" (GE.var "pattern") cfbBody,
+     GS.ret [GE.lit GV.nil]] := by rfl
+
+/-- the first key that is a variable -/
+def firstVarKey : List (GV × GV) → Option String
+  | [] => none
+  | (.str s, _) :: rest => if isVar s then some s else firstVarKey rest
+  | _ :: rest => firstVarKey rest
+
+def badKeyPre : String := "can't have a variable as a key (\""
+def badKeyPost : String := "\") with other keys"
+
+theorem firstVarKey_var {s : String} (iv : GV) (rest : List (GV × GV)) (h : isVar s = true) :
+    firstVarKey ((.str s, iv) :: rest) = some s := by simp [firstVarKey, h]
+theorem firstVarKey_nonvar {s : String} (iv : GV) (rest : List (GV × GV)) (h : isVar s = false) :
+    firstVarKey ((.str s, iv) :: rest) = firstVarKey rest := by simp [firstVarKey, h]
+
+theorem cfb_loop (g : Env) (m pat : GV) (H : Heap) : ∀ (items : List (GV × GV)) (n : Nat),
+    (∀ kv ∈ items, ∃ s, kv.1 = .str s) →
+    (firstVarKey items = none →
+      loopR (n + items.length + 30) matchProg g [("m", m), ("pattern", pat)] H "" "k" "" items cfbBody
+          = .ok (.next, [("m", m), ("pattern", pat)], H)) ∧
+    (∀ k, firstVarKey items = some k →
+      loopR (n + items.length + 30) matchProg g [("m", m), ("pattern", pat)] H "" "k" "" items cfbBody
+          = .ok (.ret [.err (badKeyPre ++ k ++ badKeyPost)], [("m", m), ("pattern", pat)], H)) := by
+  intro items
+  induction items with
+  | nil => intro n _; simp [firstVarKey, loopR]
+  | cons it items ih =>
+    intro n hk
+    obtain ⟨ik, iv⟩ := it
+    obtain ⟨s, rfl⟩ := hk (ik, iv) (by simp)
+    have hk' : ∀ kv ∈ items, ∃ s, kv.1 = .str s := fun kv h => hk kv (by simp [h])
+    have hcall : callFn (n + (items.length + 1) + 24) matchProg g ".IsVariable" m [.str s] H = .ok ([.bool (isVar s)], H) := by
+      rw [show n + (items.length + 1) + 24 = (n + items.length + 15) + 10 by omega]
+      exact tr_IsVariable _ g m s H
+    obtain ⟨ih1, ih2⟩ := ih n hk'
+    simp only [cfbBody, matchProg_McheckForBadPropertyVariables] at ih1 ih2
+    by_cases hv : isVar s = true
+    · have hf := firstVarKey_var iv items hv
+      refine ⟨fun h => (by rw [hf] at h; cases h), fun k h => ?_⟩
+      rw [hf] at h; cases h
+      simp [-callFn, loopR, cfbBody, matchProg_McheckForBadPropertyVariables]
+      rw [hcall]
+      simp [hv, badKeyPre, badKeyPost]
+    · have hv' : isVar s = false := by simpa using hv
+      have hf := firstVarKey_nonvar iv items hv'
+      refine ⟨fun h => ?_, fun k h => ?_⟩
+      · rw [hf] at h
+        simp [-callFn, loopR, cfbBody, matchProg_McheckForBadPropertyVariables]
+        rw [hcall]
+        simp [hv']
+        rw [show n + (items.length + 1) + 29 = n + items.length + 30 by omega]
+        exact ih1 h
+      · rw [hf] at h
+        simp [-callFn, loopR, cfbBody, matchProg_McheckForBadPropertyVariables]
+        rw [hcall]
+        simp [hv']
+        rw [show n + (items.length + 1) + 29 = n + items.length + 30 by omega]
+        exact ih2 k h
+
+/-- what `checkForBadPropertyVariables` returns for a pattern map with entries `kvs` -/
+def cfbResult (kvs : List (GV × GV)) : GV :=
+  if kvs.length ≤ 1 then .nil
+  else match firstVarKey kvs with
+    | none => .nil
+    | some k => .err (badKeyPre ++ k ++ badKeyPost)
+
+theorem cfb_params : matchProg_McheckForBadPropertyVariables.params = ["pattern"] ∧
+    matchProg_McheckForBadPropertyVariables.recv = "m" ∧ matchProg_McheckForBadPropertyVariables.variadic = false :=
+  ⟨rfl, rfl, rfl⟩
+
+/-- the translated `checkForBadPropertyVariables`: an error exactly when the pattern map has more
+    than one key and one of them is a variable (the first such key, in iteration order, is named) -/
+theorem tr_checkForBadPropertyVariables (n : Nat) (g : Env) (H : Heap) (am ap : Nat) (mo po : MapObj)
+    (hm : heapGet H am = some mo) (hC : mlookup (.str "CheckForBadPropertyVariables") mo.kvs = some (.bool true))
+    (hp : heapGet H ap = some po) (hk : ∀ kv ∈ po.kvs, ∃ s, kv.1 = .str s) :
+    callFn (n + po.kvs.length + 40) matchProg g ".checkForBadPropertyVariables" (.ref am) [.ref ap] H =
+      .ok ([cfbResult po.kvs], H) := by
+  obtain ⟨l1, l2⟩ := cfb_loop g (.ref am) (.ref ap) H po.kvs (n + 5) hk
+  rw [show n + po.kvs.length + 40 = (n + po.kvs.length + 39) + 1 from rfl]
+  simp only [callFn, find_cfb]
+  simp only [cfb_shape]
+  unfold cfbResult
+  by_cases hlen : po.kvs.length ≤ 1
+  · have : ((po.kvs.length : Int) ≤ 1) := by omega
+    simp [-callFn, cfb_params.1, cfb_params.2.1, cfb_params.2.2, hm, hC, hp, goLen, hlen, this]
+  · have hnot : ¬ ((po.kvs.length : Int) ≤ 1) := by omega
+    cases hf : firstVarKey po.kvs with
+    | none =>
+      have := l1 hf
+      simp [-callFn, cfb_params.1, cfb_params.2.1, cfb_params.2.2, hm, hC, hp, goLen, hlen, hnot, rangeItems]
+      rw [show n + po.kvs.length + 35 = n + 5 + po.kvs.length + 30 by omega, this]
+    | some k =>
+      have := l2 k hf
+      simp [-callFn, cfb_params.1, cfb_params.2.1, cfb_params.2.2, hm, hC, hp, goLen, hlen, hnot, rangeItems]
+      rw [show n + po.kvs.length + 35 = n + 5 + po.kvs.length + 30 by omega, this]
+
+/-- … which is the model's `checkBadPropVars` on the keys -/
+theorem firstVarKey_isSome (kvs : List (String × V)) (conv : V → GV) :
+    (firstVarKey (kvs.map (fun kv => (GV.str kv.1, conv kv.2)))).isSome = kvs.any (fun kv => isVar kv.1) := by
+  induction kvs with
+  | nil => simp [firstVarKey]
+  | cons kv rest ih =>
+    obtain ⟨k, v⟩ := kv
+    by_cases hv : isVar k = true
+    · simp [firstVarKey, hv]
+    · have hv' : isVar k = false := by simpa using hv
+      simp [firstVarKey, hv', ih]
+
+theorem cfbResult_err_iff (kvs : List (String × V)) (conv : V → GV) :
+    (cfbResult (kvs.map (fun kv => (GV.str kv.1, conv kv.2))) ≠ .nil) ↔ checkBadPropVars kvs = true := by
+  have h := firstVarKey_isSome kvs conv
+  unfold cfbResult checkBadPropVars
+  by_cases hl : kvs.length ≤ 1
+  · have : ¬ (kvs.length > 1) := by omega
+    simp [hl, this]
+  · have : kvs.length > 1 := by omega
+    simp only [List.length_map, hl, if_false]
+    cases hf : firstVarKey (kvs.map (fun kv => (GV.str kv.1, conv kv.2))) with
+    | none => rw [hf] at h; simp at h; simp [this]; exact h
+    | some k => rw [hf] at h; simp at h; simp [this]; exact h
+
+
 end Sheens.TrMatch
